@@ -8,9 +8,12 @@ mod r#gen;
 mod c10;
 mod c11;
 mod c12;
+mod c13;
+mod crash;
 mod c14;
 mod c15;
 mod c16;
+mod c18;
 mod c19;
 
 use util::Args;
@@ -32,9 +35,13 @@ fn main() {
         "c11" => c11::run(&args),
         "c12" => c12::run(&args),
         "c12conc" => c12::run_conc(&args),
+        "c13" => c13::run(&args),
+        "c13child" => c13::run_child(&args),
+        "c13lock" => c13::run_lock(&args),
         "c14" => c14::run(&args),
         "c15" => c15::run(&args),
         "c16" => c16::run(&args),
+        "c18" => c18::run(&args),
         "c19" => c19::run(&args),
         "c14ref" => c14::run_ref(&args),
         other => {
